@@ -946,6 +946,13 @@ def batch_script(g):
         opts = {tn: g.projection() for tn in greq if r.random() < 0.5}
         opts = {tn: o for tn, o in opts.items() if o}
         if opts: bg["opts"] = opts
+        if r.random() < 0.3:
+            # the legacy parameter AttributesToGet, on the batch and on the single reads of its keys alike: the library
+            # ignores it, in both
+            atg = r.sample(["h", "g", "f", "n"], r.randrange(1, 3))
+            bg["atg"] = atg
+            for tn, ks in greq.items():
+                for k_ in ks: ops.append(dict(op="get", client="c", table=tn, key=k_, atg=atg))
         ops.append(bg)
     return ops
 
